@@ -14,6 +14,28 @@ CLAIMED = {
          "Clause-level structural decision: necessary conditions of 'H fixes row 0', 'representatives trace to their rows', 'no dead rows' and inverse-consistency of entries hold for every presentation. Correctness/termination of Todd-Coxeter itself is NOT decided.", "4/C11"),
  "C02": ("T5 range-guard dataflow over MIR: every panicking operation fed by an integer argument of the basic queries is dominated by a valid range guard (callee preconditions derived from callee MIR)",
          "Clause-level structural decision for ALL index pairs and chambers at once: totality of op/r/m/v in the four representations (no panic through arguments; out-of-range reaches None). Involution, orbit lengths, agreement of representations and traversal semantics are value-level and NOT decided.", "4/C02"),
+ "C03": ("T6 opaque-value lint: census of ordering/arithmetic/ordered-container operations in the canonical-form pipeline with backward root classification (label vs index vs canonical number); T4 all-seeds minimum; T2 code content",
+         "Conditional proof of 'every renumbering yields the same canonical form': label opacity (equivariance, by parametricity) and minimum over all seeds are decided; the remaining step (the code determines the symbol = traversal coverage) is assumed. Isomorphism with the input, fixed point and 'equal forms => isomorphic' are NOT decided.", "4/C03"),
+ "C05": ("T9 construct-through (every cover is derived::cover / cover_for_table of the base's own fundamental group and coset table), T2 required dependence (cover closures read base op and m, sheet map traces the edge word), T3/T4 oriented-cover branches and sheet constant",
+         "Clause-level structural decision: necessary conditions of 'assembled from the base' and of the oriented cover's sheet count hold on every path. Commutation of the projection, fibre sizes, connectedness and the conjugacy-class count are NOT decided.", "4/C05"),
+ "C06": ("T3 guard-dominates-effect with deep validity (every generated node passed check_and_apply_implications and check_canonicity on its own, unmodified D-set), T3 completeness guard in extract, T4 counter/range/root slots",
+         "Clause-level structural decision for a module no test exercises: the closure and orderly-generation filters are applied to every node, only complete sets are emitted, numbering is 1,2,3... Irredundancy and completeness of the enumeration are NOT decided.", "4/C06"),
+ "C07": ("T4 constant/table relations (curvature windows by sign, CURV_FAC divisible by 1..=7, branching bound 7, min-degree table r*v>=3), T3 with bool-join disjunct analysis (every way of emitting passes window + filters), T4 counter",
+         "Clause-level structural decision: window signs, exactness of the scaled integer curvature, degree >= 3 and the output filters hold for every D-set and geometry. Equality with the oracle sets (completeness/irredundancy) is NOT decided.", "4/C07"),
+ "C08": ("T9/T4: geometry predicates are the sign tests of curvature(ds); T3 spherical needs positive; T4 exclusion table (1 cone -> false, 2 -> equal orders) on the oriented cover's cones",
+         "Thin clause-level decision (weakest claim): predicate/curvature-sign agreement and the shape of the bad-orbifold exclusion. Gauss-Bonnet identity, invariance under renumbering/dual and behaviour under covers are NOT decided.", "4/C08"),
+ "C09": ("T1 write-through for FreeWord (shared with C10), T3 guards on cone/relator insertion with operand correspondence (same word, same degree), T4 index-pair and orbit-representative coverage, T3 mutual inverses in find_generators",
+         "Clause-level structural decision: all words reduced (proved modulo A5), cones = branched orbits with their own degree, no empty relators, one relator per 2-orbit of every index pair incl. mirrors, facet sides carry inverse words. That the presentation defines the orbifold fundamental group is NOT decided.", "4/C09"),
+ "C12": ("T9 construct-through (children = potential_children filtered by is_canonical; extract = compact()), T3 guards (contradiction edge cannot reach Some; deductions joined and re-queued; emission only when complete), T4 row bound min(max_rows, len+1)",
+         "Clause-level structural decision: canonical filter, contradiction rejection, completeness on emission and the row bound hold for every presentation and bound. Pairwise inequivalence and completeness of the list are NOT decided.", "4/C12"),
+ "C14": ("T6(b) factor-through: relators are consumed only by relator_as_vector whose letter use is sign test + order-independent +=/-= at |g|-1; T9 sorted-on-return with no later mutation; T2 drop-ones / pad-zeros chain",
+         "Proves invariance under rotation/conjugation/free reduction (result factors through exponent sums) and decides ascending output and the 1-dropping/zero-padding shape. The invariant-factor values (Smith normal form) are NOT decided.", "4/C14"),
+ "C15": ("T3 guard-dominates-effect with data-chain correspondence (returned cover <- all v == 1 on that cover; Some(cover) <- abelian_invariants(stabilizer(0, relators, same table)) == [0,0,0]; candidates <- flattens_all), T4 point-group name/size tables vs index bound",
+         "Clause-level structural decision: branch-freeness (2D), Z^3 test on the same table (3D), covers of the oriented cover, and dead panic arms of the point-group lookup. Existence for every euclidean symbol and numbering independence are NOT decided.", "4/C15"),
+ "C17": ("T3 + T9: every Euclidean::Yes is dominated by the four certificate predicates on the data chain ds -> cov -> simp -> key; verdict constructors confined to fail/give_up/is_euclidean; T4 Z^3 subgroup-count constants, key literal parsed by an engine-side reader, data-file format vs the emitting code",
+         "Clause-level structural decision: a yes verdict cannot be produced without its certificate chain; fallback constants are those of Z^3; the invariant table parses in the reader's format (219 entries, 212 distinct). Totality, invariance and cover consistency are NOT decided.", "4/C17"),
+ "C20": ("T8 type structure (owning field types, derived deep Clone of the Impl, fresh UnsafeCell in clone, no Send/Sync impl, no escaping borrows, &mut unite) + compile_fail witnesses with twins; T1-style effect check on the find path; T3 unite links the two roots",
+         "Proves clone independence modulo Vec/HashMap::clone being deep; decides !Sync / no escaping borrow / &mut unite and that find only performs path compression to the exit-guarded root. 'Same representative <=> connected by the unions' and first-occurrence order are NOT decided.", "4/C20"),
  "C10": ("T1 write-through over every MIR body (all writers of FreeWord.w pass through normalized) + guard shape of normalized + type facts",
          "Proves, modulo the completeness of one-pass stack reduction (A5, whose guard shape is also checked), that every FreeWord value produced by any operation is freely reduced; decides that partial_cmp delegates to cmp and Eq/Hash are derived. Total-order, minimal-rotation and permutation-set clauses are value-level and NOT decided.", "4/C10"),
  "C18": ("T1 write-through + T7 symbolic interval evaluation (residue in [0,P-1] on every path), T4 constant relation (modulus prime, no overflow), T5 range guard on the pivot row counter, T3 guard-dominates-effect in solve",
